@@ -66,6 +66,8 @@ def ref(rules: dict, path: str, string_prefix=False, global_on_covered=False):
 
 
 def gen_rule(rng):
+    if rng.random() < 0.12:
+        return {}  # an empty rule still covers its directory: nothing is restricted there and global rules do not apply
     r = {}
     if rng.random() < 0.7:
         r["allow"] = rng.sample(PATTERNS, rng.randint(1, 3))
